@@ -652,7 +652,7 @@ Fixpoint list_eqb {A} (eq : A -> A -> bool) (a b : list A) : bool :=
 Definition kv_eqb (a b : str * pval) : bool := str_eqb (fst a) (fst b) && pval_eqb (snd a) (snd b).
 (* against the specification a time may differ from the reference float by at most half a millisecond
    (the reference itself is within 2^-11 s of the exact time): another formula with millisecond precision is no violation *)
-Definition half_ms : f64 := of_bits 4562254508917369340.   (* 0.0005 *)
+Definition half_ms : f64 := of_bits 4557750909289998844.   (* 0.0005 *)
 Definition pval_close (a b : pval) : bool :=
   match a, b with
   | VFloat x, VFloat y => fbits_eq x y || (is_fin x && is_fin y && fle (fabs (fsub x y)) half_ms)
